@@ -453,6 +453,7 @@ def check_e2e(ctx, case):
                     else:
                         ctx.ok('e2e-write-roundtrip')
         ctx.sample({'e2e-node': [[p['T'] for p in cs['params']] for cs in case['classes']]}, every=1)
+        proxy_part(ctx, case, classes, kit, port)
     except Exception as e:   # noqa
         ctx.finding(f'e2e:session-fails:{type(e).__name__}', case, repr(e)[:300])
     finally:
@@ -463,6 +464,72 @@ def check_e2e(ctx, case):
         srv.shutdown()
         srv.server_close()
         th.join(2)
+
+
+def proxy_part(ctx, case, classes, kit, port):
+    """the same writes through a proxy node (frappy.proxy) in front of the node: client -> proxy -> node -> driver"""
+    import frappy.client as fc
+    from frappy.proxy import proxy_class
+    from frappy.protocol.interface.tcp import TCPServer
+    from frappy.lib.multievent import MultiEvent
+    pcfg = {f'm{i}': {'cls': proxy_class(c, f'P{i}'), 'description': 'proxy module', 'uri': f'tcp://127.0.0.1:{port}', 'module': f'm{i}'}
+            for i, c in enumerate(classes)}
+    pkit = Kit(pcfg, equipment_id='proxy')
+    if pkit.errors:
+        ctx.finding('proxy:node-refused', case, repr(pkit.errors)[:300])
+        return
+    ev = MultiEvent(5)
+    for m in pkit.modules.values():
+        m.startModule(ev)
+    ev.wait(5)
+    psrv = TCPServer('tcp', pkit.log.getChild('tcp'), {'uri': 'tcp://0'}, pkit)
+    th = threading.Thread(target=psrv.serve_forever, kwargs={'poll_interval': 0.05}, daemon=True)
+    th.start()
+    client = fc.SecopClient(f'tcp://127.0.0.1:{psrv.server_address[1]}', log=None)
+    try:
+        client.connect(5)
+        for i, cs in enumerate(case['classes']):
+            mname = f'm{i}'
+            rec = classes[i].rec
+            mobj = kit.modules[mname]
+            for p in cs['params']:
+                dt = client.modules[mname]['parameters'][p['name']]['datatype']
+                for v in p.get('values', [])[:2]:
+                    ctx.ev()
+                    sub = {'kind': 'e2e', 'classes': [dict(c, params=[q for q in c['params'] if q is p]) if c is cs else dict(c, params=c['params'][:1]) for c in case['classes']]}
+                    want = rm.canon(mobj.parameters[p['name']].datatype.validate(v))
+                    before = len(rec['calls'])
+                    try:
+                        item = client.setParameter(mname, p['name'], dt.validate(v))
+                    except Exception as e:   # noqa
+                        ctx.finding(f'proxy:write-fails:{p["T"]["k"]}:{type(e).__name__}', sub, f'{v!r}: {e!r}'[:300])
+                        if isinstance(e, (TimeoutError, ConnectionError)):
+                            return
+                        continue
+                    calls = [c for c in rec['calls'][before:] if c[0] == 'write' and c[1] == p['name']]
+                    if p.get('write') and (len(calls) != 1 or calls[0][2] != want):
+                        ctx.finding(f'proxy:driver-got-other-value:{p["T"]["k"]}', sub, f'caller passed {want!r}, driver calls {calls!r}'[:300])
+                        continue
+                    cache = rm.canon(item.value)
+                    node = rm.canon(mobj.parameters[p['name']].value)
+                    if cache != node or item.readerror:
+                        ctx.finding(f'proxy:cache-differs-from-node:{p["T"]["k"]}', sub, f'cache of the proxy\'s client {cache!r} ({item.readerror!r}), node cache {node!r}')
+                    else:
+                        ctx.ok('proxy-write-roundtrip')
+    finally:
+        try:
+            client.disconnect()
+        except Exception:   # noqa
+            pass
+        psrv.shutdown()
+        psrv.server_close()
+        th.join(2)
+        for m in pkit.modules.values():
+            if hasattr(m, 'secnode') and hasattr(m.secnode, 'disconnect'):
+                try:
+                    m.secnode.disconnect()
+                except Exception:   # noqa
+                    pass
 
 
 def run_shard(ctx, shard):
